@@ -3,7 +3,7 @@
 # - with the patch: demo fails, existing suite passes; without: demo passes
 # - then applies the patch to /repo, runs ./check <ID> (quick), undoes it
 set -u
-P=$1; CRATE=$2; ID=$(echo $P | tr a-z A-Z)
+P=$1; CRATE=$2; ID=${3:-$(echo $P | tr a-z A-Z)}
 SD=/tmp/seed_$P
 W=/tmp/confirm_$P
 rm -rf $W; git -C /repo worktree prune; git -C /repo worktree add -q --detach $W HEAD || exit 3
